@@ -58,6 +58,20 @@ def scenario(sim):
     w.connect()
     big_budget = 600000
     desc = {"channels": [], "latency": lat, "rekeys": rekeys, "zlib": compress, "small_windows": server_kw}
+    # the two sides number their channels independently: refused opens beforehand make the numbers differ, so that
+    # "my id" and "the peer's id" of a channel are no longer the same number
+    skew = sim.choose(4)
+    desc["id_skew"] = skew
+    for _ in range(skew % 2 * (1 + sim.choose(2))):
+        try:
+            w.p.ts.open_forwarded_tcpip_channel(("a.example", 1), ("b.example", 2))     # the client has no handler: refused
+        except Exception:
+            sim.probe("server_side_open_refused")
+    for _ in range(skew // 2 * (1 + sim.choose(2))):
+        try:
+            w.p.tc.open_channel("direct-tcpip", ("a.example", 1), ("b.example", 2), timeout=30)  # the server refuses
+        except Exception:
+            sim.probe("client_side_open_refused")
     for i in range(nchan):
         sp = ChanSpec()
         n1, n2, n3 = size(sim), size(sim), size(sim)
@@ -130,8 +144,31 @@ def scenario(sim):
                 raise Violation(("C21", "exit-status-differs"), "channel %d: sent exit status %r, client reports %r"
                                 % (idx, sp.exit_status, w.exit_seen.get(idx)), desc)
     sim.probe("channels_verified", len(w.chans))
+    if sim.choose(3) == 0 and not stuck:
+        late_exit_status(sim, w, desc)
     w.p.close()
     return {"sample": desc, "nontrivial": True, "counts": ["chan:%d" % nchan]}
+
+
+def late_exit_status(sim, w, desc):
+    """The peer's exit status crosses our own CLOSE: it was sent before the peer saw our CLOSE, so it is 'the exit
+    status the peer sends' and has to be the one reported once things have settled."""
+    ch = w.p.tc.open_session(timeout=60)
+    sch = w.p.ts.accept(60)
+    st = (0, 3, 7, 255)[sim.choose(4)]
+    sch.send_exit_status(st)                    # on the wire before the client does anything
+    t = sim.spawn(ch.close, "late-close")       # may run before or after the status has been processed
+    sim.sleep((0.0, 0.001, 0.2)[sim.choose(3)])
+    sch.close()
+    sim.join_task(t, 30.0)
+    ssh.quiesce(sim, [w.link], (), settle=0.2, limit=10)
+    got = ch.recv_exit_status()
+    desc["late_exit_status"] = (st, got)
+    if got != st:
+        raise Violation(("C21", "exit-status-differs", "crossing-own-close"),
+                        "the peer sent exit status %d before it saw our CLOSE; after both sides settled the channel "
+                        "reports %r" % (st, got), desc)
+    sim.probe("exit_status_crossing_close_checked")
 
 
 def first_diff(a, b):
